@@ -28,6 +28,7 @@ def norm_frame(f):
     f = f.strip("_")
     if f.endswith("_frame") and len(f) > 6:
         f = f[:-6]                       # points_in_box_frame: the frame is `box`
+    f = re.sub(r"_i\d+$", "", f)         # point_in_box_i12: components i1, i2 of a quantity in frame `box`
     return "origin" if f in ("world", "origin") else f
 
 
